@@ -4,6 +4,7 @@
 // event list; the list is fed to the real RateMonitoring and CheckupRate and,
 // event by event, to the model written from the statement.
 #include <queue>
+#include <memory>
 #include "../sim/core/runner.hpp"
 #include "../models/rate.hpp"
 #include "../models/checkup.hpp"
@@ -24,6 +25,7 @@ struct Ev
 {
   int kind;      // 0 = data stamp (v = period since the previous data stamp, >= 1 ns)
                  // 1 = heartbeat (v = offset of its stamp from the last data stamp fed so far)
+                 // 2 = the stand-alone monitor continues as a copy-constructed object
   int64_t v;
   int tag;
 };
@@ -34,6 +36,7 @@ struct Plan
   double rate = 10, eps = 1;  // expected rate and tolerance (dyadic, so rate +- eps is exact)
   int64_t t0 = 0;             // origin of the sensor clock: first stamp = t0 + first period
   std::string name = "imu";
+  bool viaInitialize = false;   // stand-alone monitor: RateMonitoring() + initialize(rate) instead of RateMonitoring(rate)
   std::vector<Ev> ev;
 };
 
@@ -59,7 +62,9 @@ template<class CR>
 Outcome runWorld(const Plan & p, Ctx & c)
 {
   CR cr(p.name, p.rate, p.eps);
-  rc::RateMonitoring rm(p.rate);
+  std::unique_ptr<rc::RateMonitoring> rmPtr(p.viaInitialize ? new rc::RateMonitoring() : new rc::RateMonitoring(p.rate));
+  if (p.viaInitialize) {rmPtr->initialize(p.rate); SIM_PROBE("monitor_configured_through_initialize");}
+#define rm (*rmPtr)
   model::RateModel m(p.rate);
   const int kind = p.checkKind == 0 ? model::EqualTo : model::GreaterThan;
   const std::string key = p.name + "_rate";
@@ -106,6 +111,17 @@ Outcome runWorld(const Plan & p, Ctx & c)
 
   for (const Ev & e : p.ev) {
     ++no; ++c.steps;
+    if (e.kind == 2) {
+      // the copy constructor must carry window, last stamp and rate over
+      SIM_COUNT("op.monitor_copy_constructed");
+      if (m.seen > 0 && !m.windowFull()) {SIM_PROBE("copy_with_partly_filled_window");}
+      rmPtr.reset(new rc::RateMonitoring(*rmPtr));
+      if (!(std::fabs(rm.getRate() - m.rate) <= 1e-12 * std::fabs(m.rate))) {
+        return Outcome::fail("rate-mismatch", fmt("event #%zu: a copy of the monitor reports rate %.17g, the original had %.17g", no, rm.getRate(), m.rate));
+      }
+      c.note(fmt("#%zu monitor continues as a copy", no));
+      continue;
+    }
     countTag(e.tag);
     if (e.kind == 0) {
       int64_t dt = e.v < 1 ? 1 : e.v;
@@ -210,6 +226,7 @@ Outcome runWorld(const Plan & p, Ctx & c)
   }
   if (anyTime) {c.simSeconds += (double)(lastTime - firstTime) * 1e-9;}
   return Outcome::pass();
+#undef rm
 }
 
 // ---------------------------------------------------------------- the generating world
@@ -301,6 +318,8 @@ struct PropC17
     }
     static const char * names[] = {"imu", "gps", "lidar", "odo", "joy"};
     p.name = r.pick(names);
+    p.viaInitialize = r.chance(0.25);
+    const double pCopy = r.pick({0.0, 0.0, 0.01, 0.05});
     switch (r.below(8)) {
       case 0: p.t0 = -(int64_t)r.below(5000000000ULL); break;
       case 1: p.t0 = 1700000000000000000LL + (int64_t)r.below(1000000000ULL); break;
@@ -389,6 +408,7 @@ struct PropC17
     // ---- encode relative to the last data stamp so that dropping events keeps the plan legal
     int64_t cur = p.t0;
     for (auto & rc_ : recs) {
+      if (r.chance(pCopy)) {p.ev.push_back(Ev {2, 0, T_STEADY});}
       if (rc_.kind == 0) {p.ev.push_back(D(std::max<int64_t>(1, rc_.stamp - cur), rc_.tag)); cur = std::max(cur + 1, rc_.stamp);} else {
         p.ev.push_back(H(rc_.stamp - cur, rc_.tag));
       }
@@ -411,11 +431,11 @@ struct PropC17
   {
     Json j = Json::object();
     j.set("checkup", p.checkKind == 0 ? "CheckupEqualToRate" : "CheckupGreaterThanRate").set("check_kind", p.checkKind)
-    .set("expected_rate", p.rate).set("tolerance", p.eps).set("t0_ns", (long long)p.t0).set("name", p.name);
+    .set("expected_rate", p.rate).set("tolerance", p.eps).set("t0_ns", (long long)p.t0).set("name", p.name).set("monitor_via_initialize", p.viaInitialize);
     Json ev = Json::array();
     for (auto & e : p.ev) {
       Json o = Json::object();
-      if (e.kind == 0) {o.set("ev", "data").set("period_ns", (long long)e.v);} else {o.set("ev", "heartbeat").set("after_last_stamp_ns", (long long)e.v);}
+      if (e.kind == 0) {o.set("ev", "data").set("period_ns", (long long)e.v);} else if (e.kind == 2) {o.set("ev", "monitor_copy");} else {o.set("ev", "heartbeat").set("after_last_stamp_ns", (long long)e.v);}
       o.set("cause", kTagName[e.tag]).set("tag", e.tag);
       ev.push(o);
     }
@@ -425,8 +445,9 @@ struct PropC17
   Plan fromJson(const Json & j) const
   {
     Plan p; p.checkKind = (int)j["check_kind"].i(); p.rate = j["expected_rate"].d(); p.eps = j["tolerance"].d();
-    p.t0 = j["t0_ns"].i(); p.name = j["name"].s();
+    p.t0 = j["t0_ns"].i(); p.name = j["name"].s(); p.viaInitialize = j["monitor_via_initialize"].b();
     for (auto & o : j["events"].a()) {
+      if (o["ev"].s() == "monitor_copy") {p.ev.push_back(Ev {2, 0, T_STEADY}); continue;}
       if (o["ev"].s() == "data") {p.ev.push_back(D(o["period_ns"].i(), (int)o["tag"].i()));} else {
         p.ev.push_back(H(o["after_last_stamp_ns"].i(), (int)o["tag"].i()));
       }
@@ -442,8 +463,10 @@ struct PropC17
     if (p.rate != 2) {Plan q = p; q.rate = 2; q.eps = std::min(p.eps, 1.0); out.push_back(q);}
     if (p.eps != 0) {Plan q = p; q.eps = 0; out.push_back(q);}
     if (p.name != "x") {Plan q = p; q.name = "x"; out.push_back(q);}
+    if (p.viaInitialize) {Plan q = p; q.viaInitialize = false; out.push_back(q);}
     for (size_t k = 0; k < p.ev.size(); ++k) {
       const Ev & e = p.ev[k];
+      if (e.kind == 2) {continue;}
       // strictly monotone: only values that come earlier in the list than the current one
       static const int64_t simpleD[] = {100000000LL, 1000000000LL, 1};
       static const int64_t simpleH[] = {100000000LL, 1000000000LL, 500000001LL, 500000000LL, 499999999LL, -1};
@@ -462,7 +485,7 @@ struct PropC17
     h = mix64(h, bitsOf(p.eps));
     for (auto & e : p.ev) {
       // class of the event: kind, and for heartbeats whether it is late, for data how long the period is
-      int cls = e.kind == 0 ? (e.v > 500000000LL ? 2 : (e.v < 1000000 ? 1 : 0)) : (e.v > 500000000LL ? 5 : (e.v < 0 ? 4 : 3));
+      int cls = e.kind == 2 ? 6 : e.kind == 0 ? (e.v > 500000000LL ? 2 : (e.v < 1000000 ? 1 : 0)) : (e.v > 500000000LL ? 5 : (e.v < 0 ? 4 : 3));
       h = mix64(h, (uint64_t)cls);
     }
     return h;
@@ -472,6 +495,7 @@ struct PropC17
   {
     bool late = false, data = false;
     for (auto & e : p.ev) {
+      if (e.kind == 2) {continue;}
       if (e.kind == 0) {if (late) {return true;} data = true;} else if (data && e.v > 500000000LL) {late = true;}
     }
     return false;
@@ -479,7 +503,7 @@ struct PropC17
   std::string signature(const Plan & p, const Outcome & o) const
   {
     std::string s = o.cls + "|" + (p.checkKind == 0 ? "EqualTo" : "GreaterThan") + "|";
-    for (auto & e : p.ev) {s += e.kind == 0 ? "D" : (e.v > 500000000LL ? "T" : "H");}
+    for (auto & e : p.ev) {s += e.kind == 2 ? "C" : e.kind == 0 ? "D" : (e.v > 500000000LL ? "T" : "H");}
     return s;
   }
   std::vector<uint64_t> sampleIndexes() const
@@ -500,7 +524,8 @@ struct PropC17
       "recovery_after_timeout_with_full_window", "stamp_after_timeout_with_partly_filled_window",
       "window_one_stamp_short_of_full", "window_just_full", "window_rollover_with_irregular_periods",
       "first_stamp_zero_or_negative", "first_stamp_huge", "status_ok", "status_too_low", "status_too_high",
-      "rate_exactly_on_target_with_zero_tolerance", "liveness_checked_after_faults_stopped", "timeouts"};
+      "rate_exactly_on_target_with_zero_tolerance", "liveness_checked_after_faults_stopped", "timeouts",
+      "monitor_configured_through_initialize", "copy_with_partly_filled_window"};
   }
   Json describe() const
   {
